@@ -111,7 +111,7 @@ Proof.
                      match snd ka with
                      | AVal _ => ret ((l ++ [(fst ka, None)])%list, s, rq, fs)
                      | AGraph sub =>
-                       do r <- compile f s sub (prefix0 ++ "_" ++ fst ka ++ "__")%string false ;;
+                       do r <- compile f s sub (prefix0 ++ "_" ++ fst ka ++ "__")%string (Some false) ;;
                        let '(mg, s', rq', fs') := r in
                        ret ((l ++ [(fst ka, Some mg)])%list, s', union req_eqb rq rq', (fs ++ fs')%list)
                      end) l a0 = inl (al, sz, rqz, fz) ->
@@ -254,7 +254,7 @@ Theorem build_main_emission ffuel p un main b :
   exists d, discover (fuel_of p) p dstate0 main = inl d /\
     srcs_graph (b_graph b) = spec_srcs p (own_of_def p d main) (fuel_of p) main /\
     (NoDup (topo_of p main) -> NoDup (spec_graphs p (own_of_def p d main) (fuel_of p) main) -> NoDup (srcs_graph (b_graph b))).
-Proof. destruct ffuel as [|ff]; [discriminate|]. cbn [build_main]. intros H.
+Proof. destruct ffuel as [|ff]; [discriminate|]. unfold build_main. cbn [build_main_gen]. intros H.
   apply bind_ok in H. destruct H as [d [Hd H]]. apply bind_ok in H. destruct H as [[[[mg s] rq] fs] [Hc H]].
   inversion H; subst. cbn [b_graph]. exists d. split; [exact Hd|]. split.
   - exact (compile_srcs _ _ _ _ _ _ _ _ _ _ _ _ _ _ Hc).
